@@ -74,10 +74,19 @@ pub fn fresh_dir() -> PathBuf {
     d
 }
 
+/// Run one case exactly as given (no per-property case preparation)
+pub fn run_case_raw(spec: &CheckSpec, case: &Case) -> Result<Stats, Failure> {
+    run_case_opt(spec, case, false)
+}
+
 /// Run one case; returns stats or the failure.
 pub fn run_case(spec: &CheckSpec, case: &Case) -> Result<Stats, Failure> {
+    run_case_opt(spec, case, true)
+}
+
+fn run_case_opt(spec: &CheckSpec, case: &Case, prepare: bool) -> Result<Stats, Failure> {
     let root = fresh_dir();
-    let r = std::panic::catch_unwind(std::panic::AssertUnwindSafe(|| run_case_inner(spec, case, &root)));
+    let r = std::panic::catch_unwind(std::panic::AssertUnwindSafe(|| run_case_inner(spec, case, &root, prepare)));
     crate::util::rm_rf(&root);
     match r {
         Ok(r) => r,
@@ -88,10 +97,12 @@ pub fn run_case(spec: &CheckSpec, case: &Case) -> Result<Stats, Failure> {
     }
 }
 
-fn run_case_inner(spec: &CheckSpec, case: &Case, root: &Path) -> Result<Stats, Failure> {
+fn run_case_inner(spec: &CheckSpec, case: &Case, root: &Path, prepare: bool) -> Result<Stats, Failure> {
     let mut case = case.clone();
-    if let Some(p) = spec.prepare {
-        p(&mut case);
+    if prepare {
+        if let Some(p) = spec.prepare {
+            p(&mut case);
+        }
     }
     let case = &case;
     if case.keys.is_empty() || case.cfgs.is_empty() {
@@ -136,12 +147,29 @@ fn run_case_inner(spec: &CheckSpec, case: &Case, root: &Path) -> Result<Stats, F
     for e in execs.iter_mut() {
         e.open().map_err(|what| Failure { op_index: 0, what })?;
     }
-    let fail = |i: usize, what: String| Failure { op_index: i, what };
+    let spec_id = spec.id;
+    let weak_keys = (case.weak_keys as usize).min(case.keys.len());
+    let fail = move |i: usize, what: String| Failure { op_index: i, what };
+    // signature tagging for known findings (see known_findings.json)
+    let tag = |execs: &[Exec], f: Failure| -> Failure {
+        let mut f = f;
+        if spec_id == "C13" {
+            if let Some(k) = crate::exec::take_fail_key() {
+                if let Some(idx) = execs[0].keys.iter().position(|x| x == &k) {
+                    if idx < weak_keys && execs[0].kstate[idx].inserts >= 2 {
+                        f.what = format!("[sig:weak-multigen] {}", f.what);
+                    }
+                }
+            }
+        }
+        f
+    };
+    let trace = std::env::var("LSMV_TRACE").is_ok();
+    let run = |execs: &mut Vec<Exec>| -> Result<(), Failure> {
     // initial audit (empty tree)
     for e in execs.iter_mut() {
         crate::audit::after_op(e).map_err(|w| fail(0, format!("after open: {w}")))?;
     }
-    let trace = std::env::var("LSMV_TRACE").is_ok();
     for (i, op) in case.ops.iter().enumerate() {
         for (ti, e) in execs.iter_mut().enumerate() {
             let r = e.apply(op);
@@ -178,7 +206,7 @@ fn run_case_inner(spec: &CheckSpec, case: &Case, root: &Path) -> Result<Stats, F
             }
         }
         if execs.len() > 1 {
-            cross_compare(&mut execs).map_err(|w| fail(i, format!("after op {op:?}: {w}")))?;
+            cross_compare(execs).map_err(|w| fail(i, format!("after op {op:?}: {w}")))?;
         }
     }
     for (ti, e) in execs.iter_mut().enumerate() {
@@ -187,7 +215,37 @@ fn run_case_inner(spec: &CheckSpec, case: &Case, root: &Path) -> Result<Stats, F
             h(e).map_err(|w| fail(case.ops.len(), format!("tree#{ti} finale: {w}")))?;
         }
     }
+        Ok(())
+    };
+    if let Err(f) = run(&mut execs) {
+        return Err(tag(&execs, f));
+    }
     let mut stats = Stats::default();
+    {
+        // configuration diversity (C11)
+        let c = &case.cfgs;
+        for i in 0..c.len() {
+            for j in (i + 1)..c.len() {
+                let (a, b) = (&c[i], &c[j]);
+                let d = [
+                    a.block_size != b.block_size,
+                    a.restart != b.restart,
+                    (a.hash_ratio.iter().any(|x| *x > 0.0)) != (b.hash_ratio.iter().any(|x| *x > 0.0)),
+                    a.index_part != b.index_part,
+                    a.filter_part != b.filter_part,
+                    a.filter != b.filter,
+                    a.data_lz4 != b.data_lz4 || a.index_lz4 != b.index_lz4,
+                    a.pin_index != b.pin_index || a.pin_filter != b.pin_filter,
+                ]
+                .iter()
+                .filter(|x| **x)
+                .count();
+                if d >= 3 {
+                    stats.bump("cfg.differ3");
+                }
+            }
+        }
+    }
     for e in &execs {
         stats.merge(&e.stats);
     }
@@ -222,6 +280,7 @@ fn cross_compare(execs: &mut [Exec]) -> Result<(), String> {
                 continue;
             }
             if v0.points[ki] != v.points[ki] {
+                crate::exec::note_fail_key(k);
                 return Err(format!(
                     "twin trees disagree on get({}): tree#0 {} vs tree#{i} {}",
                     crate::util::hex(k),
@@ -246,6 +305,38 @@ fn cross_compare(execs: &mut [Exec]) -> Result<(), String> {
     }
     execs[0].stats.bump("twin.comparisons");
     Ok(())
+}
+
+#[derive(Clone, Debug)]
+pub struct Known {
+    pub property: String,
+    pub signature: String,
+    pub witness: String,
+    pub what: String,
+}
+
+pub fn load_known(id: &str) -> Vec<Known> {
+    let Ok(txt) = std::fs::read_to_string("/verif/known_findings.json") else {
+        return vec![];
+    };
+    let Ok(v) = serde_json::from_str::<serde_json::Value>(&txt) else {
+        return vec![];
+    };
+    v["known"]
+        .as_array()
+        .map(|a| {
+            a.iter()
+                .filter(|e| e["property"].as_str() == Some(id))
+                .map(|e| Known {
+                    property: id.to_string(),
+                    signature: e["signature"].as_str().unwrap_or("").to_string(),
+                    witness: e["witness"].as_str().unwrap_or("").to_string(),
+                    what: e["what"].as_str().unwrap_or("").to_string(),
+                })
+                .filter(|k| !k.signature.is_empty())
+                .collect()
+        })
+        .unwrap_or_default()
 }
 
 pub struct Outcome {
@@ -280,6 +371,8 @@ pub fn summarize_case(case: &Case) -> serde_json::Value {
 }
 
 pub fn explore(spec: &CheckSpec, tier: &str, seed: u64) -> Outcome {
+    let known = load_known(spec.id);
+    let known = &known;
     let thorough = tier_is_thorough(tier);
     let total = if thorough { spec.cases_thorough } else { spec.cases_quick };
     let mut gen = spec.gen.clone();
@@ -363,6 +456,14 @@ pub fn explore(spec: &CheckSpec, tier: &str, seed: u64) -> Outcome {
                             Ok(())
                         }
                         Err(f) => {
+                            if let Some(k) = known.iter().find(|k| f.what.contains(&k.signature)) {
+                                // a listed finding: excluded from the search, counted
+                                if !failed.get() {
+                                    let mut a = agg.lock().expect("agg");
+                                    *a.2.entry(format!("known_finding_hits.{}", k.signature)).or_insert(0) += 1;
+                                }
+                                return Ok(());
+                            }
                             failed.set(true);
                             Err(TestCaseError::fail(f.what))
                         }
@@ -482,7 +583,33 @@ pub fn run_history_check(spec: &CheckSpec, tier: &str, seed: u64) -> i32 {
         violations = 1;
         code = 1;
     }
+    let mut known_lines = vec![];
+    for k in load_known(spec.id) {
+        if let Ok(txt) = std::fs::read_to_string(&k.witness) {
+            if let Ok(v) = serde_json::from_str::<serde_json::Value>(&txt) {
+                if let Ok(mut case) = serde_json::from_value::<Case>(v["case"].clone()) {
+                    case.multi_gen = true;
+                    match run_case_raw(spec, &case) {
+                        Err(f) if f.what.contains(&k.signature) => {
+                            println!("KNOWN-FINDING: property={} {}", spec.id, k.what);
+                            known_lines.push(k.signature.clone());
+                        }
+                        Err(f) => {
+                            // the witness fails differently: that is a new violation
+                            let p = write_replay(spec.id, &case, &f, json!({"tier": tier, "seed": seed, "note": "witness of a known finding failed with another signature"}));
+                            println!("FAILURE property={} : {}", spec.id, f.what);
+                            println!("VIOLATION property={} replay={}", spec.id, p.display());
+                            violations += 1;
+                            code = 1;
+                        }
+                        Ok(_) => {}
+                    }
+                }
+            }
+        }
+    }
     let coverage = json!({
+        "known_findings_reproduced": known_lines,
         "evaluations": out.evaluations,
         "distinct_nontrivial": out.nontrivial.len(),
         "rule": spec.rule,
